@@ -34,7 +34,7 @@ func (d *DatasourceExecuting) Run(ctx ExecutionContext, produce ProduceFn, metaS
 			}
 			if i := bytes.Index(data, []byte(d.separator)); i >= 0 {
 				// We have a full separator-terminated line.
-				return i + 1, data[0:i], nil
+				return i + len(d.separator), data[0:i], nil
 			}
 			// If we're at EOF, we have a final, non-terminated line. Return it.
 			if atEOF {
